@@ -38,6 +38,8 @@ def miri_extra(prop, argv_seeds, miri_seeds):
                 for r in _json.loads(l[len("MIRI-RESULT "):]):
                     out["counters"]["miri_scenario_runs"] += 1
                     out["counters"]["miri_events"] += r["events"]
+                    if r.get("inconclusive"):
+                        out["inconclusive"].append("miri run %d, scenario %s: %s" % (k, r["scenario"], r["inconclusive"]))
                     if r["violation"]:
                         out["violations"].append({"kind": r["violation"]["kind"], "locus": r["scenario"] + "[miri]", "case_id": "miri:%d" % (seed * 100 + k),
                                                   "detail": r["violation"]["detail"], "shard": 0, "nshards": 1})
